@@ -480,11 +480,15 @@ def _sap_broadphase(
       geom1 = sort_index_in[worldid, i]
       geom2 = sort_index_in[worldid, j]
 
-      # find linear index of (geom1, geom2) in upper triangular nxn_pairid
+      # order the pair by geom id (as nxn_geom_pair does) so that both broadphases
+      # report the same contact.geom / normal direction for geoms of the same type
       if geom2 < geom1:
-        idx = upper_tri_index(ngeom, geom2, geom1)
-      else:
-        idx = upper_tri_index(ngeom, geom1, geom2)
+        tmp = geom1
+        geom1 = geom2
+        geom2 = tmp
+
+      # find linear index of (geom1, geom2) in upper triangular nxn_pairid
+      idx = upper_tri_index(ngeom, geom1, geom2)
 
       worldgeomid += nsweep_in
       pairid = nxn_pairid[idx]
